@@ -992,7 +992,7 @@ def case_fit(ctx, c):
 
 
 BIG_EVERY = 160   # every 160th model case is a large-population case (25 per quick run, each size >= 6 times)
-FAMILIES = {"model": (case_model, 4000, 120000), "fit": (case_fit, 400, 8000)}
+FAMILIES = {"model": (case_model, 4000, 96000), "fit": (case_fit, 400, 6400)}
 
 
 def run_shard(ctx):
